@@ -992,7 +992,7 @@ Proof.
   assert (B0 : (0xFFFF <? Z.of_nat o) = false) by lia. rewrite B0.
   unfold srv_read_blob at 1.
   assert (B1 : (Z.of_nat (length value) <? Z.of_nat o) = false) by lia. rewrite B1.
-  assert (B2 : (Z.of_nat (length value) <=? mtu - 1) = false) by lia. rewrite B2.
+  assert (B2 : andb (Z.of_nat o =? 0) (Z.of_nat (length value) <=? mtu - 1) = false) by lia. rewrite B2.
   unfold sublist. rewrite Nat2Z.id.
   set (k := Z.to_nat (Z.min (mtu - 1) (Z.of_nat (length value) - Z.of_nat o))).
   assert (Lp : length (firstn k (skipn o value)) = k).
@@ -1018,13 +1018,16 @@ Proof.
   destruct (Z.of_nat k =? mtu - 1) eqn:E.
   - assert (Hk : Z.of_nat k = mtu - 1) by lia.
     destruct (Z.eq_dec (Z.of_nat (length value)) (mtu - 1)) as [Heq|Hne].
-    + (* exactly mtu-1 bytes: the server says "attribute not long" *)
+    + (* exactly mtu-1 bytes: the Read Blob at the end of the value returns an empty part *)
       cbn [read_blob_loop].
       assert (B0 : (0xFFFF <? Z.of_nat k) = false) by lia. rewrite B0.
       unfold srv_read_blob.
       assert (B1 : (Z.of_nat (length value) <? Z.of_nat k) = false) by lia. rewrite B1.
-      assert (B2 : (Z.of_nat (length value) <=? mtu - 1) = true) by lia. rewrite B2.
-      cbn. f_equal. apply firstn_all2. lia.
+      assert (B2 : andb (Z.of_nat k =? 0) (Z.of_nat (length value) <=? mtu - 1) = false) by lia. rewrite B2.
+      assert (E0 : Z.min (mtu - 1) (Z.of_nat (length value) - Z.of_nat k) = 0) by lia. rewrite E0.
+      unfold sublist. cbn [Z.to_nat firstn length Z.of_nat].
+      assert (B3 : (0 <? mtu - 1) = true) by lia. rewrite B3. rewrite app_nil_r.
+      f_equal. apply firstn_all2. lia.
     + apply blob_loop_exact; subst k; lia.
   - f_equal. apply firstn_all2. subst k. lia.
 Qed.
@@ -1936,7 +1939,7 @@ Lemma shape_read_blob : forall mtu v off,
   srv_read_blob mtu v off
   = let len := Z.of_nat (List.length v) in
     if len <? off then VErr (k_err_invalid_offset)
-    else if len <=? mtu - k_blob_not_long then VErr (k_err_not_long)
+    else if andb (off =? 0) (len <=? mtu - k_blob_not_long) then VErr (k_err_not_long)
     else VVal (sublist off (Z.min (mtu - k_blob_part) (len - off)) v).
 Proof. reflexivity. Qed.
 
@@ -2089,3 +2092,65 @@ Proof.
   - repeat constructor; cbn; intuition discriminate.
   - vm_compute. discriminate.
 Qed.
+
+(* ================================================================== long read while the ATT_MTU changes *)
+Lemma blob_loop_dyn_exact : forall fuel value m k o,
+  (forall j, 2 <= m j) -> Z.of_nat (length value) <= 0xFFFF ->
+  (1 <= o)%nat -> (o <= length value)%nat -> (length value - o < fuel)%nat ->
+  read_blob_loop_dyn fuel (fun k off => srv_read_blob (m k) value off) m k (firstn o value) (Z.of_nat o)
+  = RDone value.
+Proof.
+  induction fuel as [|f IH]; intros value m k o Hm Hmax H1 Ho Hf; [lia|].
+  cbn [read_blob_loop_dyn]. pose proof (Hm k) as Hk.
+  assert (B0 : (0xFFFF <? Z.of_nat o) = false) by lia. rewrite B0.
+  unfold srv_read_blob at 1.
+  assert (B1 : (Z.of_nat (length value) <? Z.of_nat o) = false) by lia. rewrite B1.
+  assert (B2 : andb (Z.of_nat o =? 0) (Z.of_nat (length value) <=? m k - 1) = false) by lia. rewrite B2.
+  unfold sublist. rewrite Nat2Z.id.
+  set (p := Z.to_nat (Z.min (m k - 1) (Z.of_nat (length value) - Z.of_nat o))).
+  assert (Lp : length (firstn p (skipn o value)) = p).
+  { rewrite firstn_length, skipn_length. subst p. lia. }
+  rewrite Lp, firstn_plus.
+  destruct (Z.of_nat p <? m k - 1) eqn:E.
+  - assert (o + p = length value)%nat by (subst p; lia).
+    rewrite H. now rewrite firstn_all.
+  - replace (Z.of_nat o + Z.of_nat p) with (Z.of_nat (o + p)) by lia.
+    apply IH; try assumption; subst p; lia.
+Qed.
+
+(* The client gets exactly the value whatever ATT_MTU is in force at each step of the read, as long
+   as its tests use the ATT_MTU in force when the response arrives (the one the server used). *)
+Theorem long_read_exact_any_mtu : forall value m, (forall j, 2 <= m j) -> Z.of_nat (length value) <= 0xFFFF ->
+  read_from_server_dyn (S (length value)) m value = RDone value.
+Proof.
+  intros value m Hm Hmax. unfold read_from_server_dyn, read_value_dyn, srv_read. pose proof (Hm 0%nat) as H0.
+  set (k := Z.to_nat (Z.min (m 0%nat - 1) (Z.of_nat (length value)))).
+  assert (Lk : length (firstn k value) = k) by (rewrite firstn_length; subst k; lia).
+  rewrite Lk.
+  destruct (Z.of_nat k =? m 0%nat - 1) eqn:E.
+  - apply blob_loop_dyn_exact; try assumption; subst k; lia.
+  - f_equal. apply firstn_all2. subst k. lia.
+Qed.
+
+(* the tests made against an ATT_MTU remembered from before the first request are wrong as soon as
+   an MTU exchange is served first: 120 bytes, snapshot 23, ATT_MTU 100 when the read runs *)
+Lemma read_value_stale_mtu_refuted :
+  exists value snapshot m, (forall j, 2 <= m j) /\
+    read_from_server_stale (S (length value)) snapshot m value <> RDone value.
+Proof.
+  exists (repeat 7 120), 23, (fun _ => 100). split; [intros; lia|]. vm_compute. discriminate.
+Qed.
+
+(* the server before D12f refused a Read Blob at an offset > 0 as soon as the value fitted the
+   CURRENT ATT_MTU: a read that started at ATT_MTU 23 and continued at 100 lost the rest *)
+Definition srv_read_blob_unfixed (mtu : Z) (value : list Z) (off : Z) : rresp :=
+  let len := Z.of_nat (length value) in
+  if len <? off then VErr ATT_INVALID_OFFSET
+  else if len <=? mtu - 1 then VErr ATT_NOT_LONG
+  else VVal (sublist off (Z.min (mtu - 1) (len - off)) value).
+
+Lemma read_blob_unfixed_refuted :
+  let value := repeat 7 60 in let m := fun k : nat => if Nat.eqb k 0 then 23 else 100 in
+  read_value_dyn 61 (srv_read (m 0%nat) value) (fun k off => srv_read_blob_unfixed (m k) value off) m
+  = RDone (repeat 7 22).
+Proof. vm_compute. reflexivity. Qed.
